@@ -1,4 +1,6 @@
-"""The unbounded part: Apalache discharges the inductive invariant of spec/SlotAccounting.tla for every pool size."""
+"""The unbounded part: Apalache discharges the inductive invariants of spec/SlotAccounting.tla (every pool size) and
+spec/QueueAccounting.tla (any number of items/consumers/joiners); the TLA+ proof system (tlapm) checks the deductive
+proofs of the same invariants in spec/proofs/SlotProof.tla and spec/proofs/QueueProof.tla."""
 from __future__ import annotations
 
 import os
@@ -52,4 +54,35 @@ def discharge(wd, log, module="SlotAccounting", obligations=None, cinit=("--cini
     shutil.rmtree(os.path.join(d, "out"), ignore_errors=True)
     log("Apalache: %d of %d obligations of %s discharged (%s)%s" % (
         res["discharged"], res["obligations"], module, what, (" REFUTED: %s" % res["refuted"]) if res["refuted"] else ""))
+    return res
+
+
+def tlaps(wd, log, proof_module, needs):
+    """Check the TLAPS proof  Spec => [](IndInv /\\ ...)  of a lemma module.  A failure is reported, never a verdict."""
+    import re
+    d = os.path.join(wd, "tlaps-" + proof_module)
+    shutil.rmtree(d, ignore_errors=True)
+    os.makedirs(d)
+    shutil.copy(os.path.join(common.SPEC, "proofs", proof_module + ".tla"), d)
+    for m in needs:
+        shutil.copy(os.path.join(common.SPEC, m + ".tla"), d)
+    res = {"module": proof_module, "checker_cmd": "tlapm %s.tla" % proof_module, "proved": False, "obligations": 0}
+    if shutil.which("tlapm") is None:
+        res["error"] = "tlapm not found"
+        return res
+    t0 = time.time()
+    try:
+        p = subprocess.run(["tlapm", proof_module + ".tla"], cwd=d, stdout=subprocess.PIPE, stderr=subprocess.STDOUT, text=True, timeout=600)
+        out = p.stdout
+    except subprocess.TimeoutExpired:
+        res["error"] = "timeout"
+        return res
+    m = re.search(r"All (\d+) obligations? proved", out)
+    if m:
+        res.update(proved=True, obligations=int(m.group(1)))
+    else:
+        res["error"] = out[-300:]
+    res["secs"] = round(time.time() - t0, 1)
+    shutil.rmtree(os.path.join(d, ".tlacache"), ignore_errors=True)
+    log("TLAPS: %s - %s" % (proof_module, ("all %d proof obligations checked" % res["obligations"]) if res["proved"] else "NOT proved"))
     return res
